@@ -13,6 +13,7 @@
 //   TI <hex> <select>              Instance::parse_input_transaction
 //   SC <hex>                       Instance::parse_script(bytes)
 //   ST <items>                     initial stack  a,b,c
+//   SS <hex>                       successor script (scriptPubKey executed after the script)
 //   PV <string>                    Instance::parse_pretend_valid_expr
 //   XD <leafhash|-> <annexhash|-|none> <weight|-> execdata overrides
 //   TCE <control> <program> <script>   attach a TaprootCommitmentEnv to the instance
@@ -127,6 +128,11 @@ static void emit_state(Case& c, const char* kind, int ret, const std::string& ex
     g_sighashes.clear();
     emit_capture();
     if (!e) { fprintf(EV, "%s %d noenv\n", kind, ret); fflush(EV); return; }
+    if (!e->operational) {
+        // the environment constructor bailed out early: its remaining members are not initialised
+        fprintf(EV, "%s 0 %d - 0 0 0 0 0 0 0 0 0 0 0 -1 - %d - . .\n", kind, (int)*e->serror, (int)e->sigversion);
+        fflush(EV); return;
+    }
     std::string scr(e->script.begin(), e->script.end());
     if (scr != c.last_script) {
         c.last_script = scr;
@@ -353,6 +359,7 @@ int main(int argc, char** argv) {
                 bool ok = c->inst->parse_script(unhx(t[1]));
                 fprintf(EV, "SC %d\n", ok ? 1 : 0); fflush(EV);
             }
+            else if (cmd == "SS") { auto b = unhx(t[1]); c->inst->successor_script = CScript(b.begin(), b.end()); }
             else if (cmd == "ST") { for (auto& it : parsevec(t[1])) c->inst->stack.push_back(it); }
             else if (cmd == "PV") {
                 std::string a = unhxs(t[1]);
@@ -388,8 +395,12 @@ int main(int argc, char** argv) {
             else if (cmd == "SU") {
                 bool ok = c->inst->setup_environment(c->flags);
                 c->inst->env->allow_disabled_opcodes = c->allow;
-                c->setup = true;
+                c->setup = ok;
                 emit_state(*c, "U", ok ? 1 : 0, "");
+            }
+            else if ((cmd == "S" || cmd == "CS" || cmd == "R" || cmd == "C" || cmd == "X" || cmd == "D") && !c->setup) {
+                // btcdeb exits when setup_environment() fails: nothing may be executed on such an environment
+                fprintf(EV, "NOSETUP %s\n", cmd.c_str()); fflush(EV);
             }
             else if (cmd == "S") {
                 bool r = c->inst->step();
